@@ -1,0 +1,21 @@
+//go:build verif
+
+package dashboard
+
+import "net/http"
+
+// VerifNew returns a dashboard for the given instance that serves no pages
+// (no templates, no registered views): only the handlers exposed below.
+// Verification hook: only compiled with the "verif" build tag.
+func VerifNew(instance instance, tokenSecret []byte) *Dashboard {
+	return &Dashboard{instance: instance, tokenSecret: tokenSecret}
+}
+
+// VerifMux returns a mux with the mapping confirmation handler registered
+// under the pattern registerViews uses for it.
+// Verification hook: only compiled with the "verif" build tag.
+func (d *Dashboard) VerifMux() *http.ServeMux {
+	mux := http.NewServeMux()
+	mux.HandleFunc("POST /open/{domain}/{router}/", d.mappingOpenSet)
+	return mux
+}
